@@ -67,7 +67,7 @@ PROPS = {
     ),
     'C01': dict(
         verus=['pmtiles_dir', 'pmtiles_dir_dec', 'varint_pbf', 'tile_bbox', 'tile_index', 'block_index', 'block_index_pyramid', 'mbtiles_pyramid', 'versatiles_stream', 'versatiles_writer', 'pmtiles_writer'],
-        kani=['pmtiles_codec', 'versatiles_codec', 'tile_bbox', 'tile_bbox_iter'],
+        kani=['pmtiles_codec', 'versatiles_codec', 'tile_bbox', 'tile_bbox_iter', 'zigzag'],
         not_decided=[
             'end-to-end write-then-read through async I/O: write_block (incl. the de-duplication callback) and the section layout of PMTilesWriter::write_to_writer are under contract; the versatiles header and meta writes, completeness of write_blocks (every non-empty block is listed) and of the PMTiles entry list (every streamed tile has an entry) are not; the composition writer -> file -> reader is not stated as one theorem',
             'MBTiles (SQL), tar and directory (file names), getters.rs dispatch',
@@ -86,7 +86,7 @@ PROPS = {
     ),
     'C11': dict(
         verus=['varint_pbf', 'vector_tile_tables', 'vector_tile_feature', 'vector_tile_layer', 'vector_tile_layer_enc', 'vector_tile_merge', 'update_properties'],
-        kani=[],
+        kani=['zigzag'],
         not_decided=[
             'what the property callback computes (CSV join: id lookup, replace / update / remove; abstracted by R12) and value typing (GeoValue)',
             'filter_map_properties beyond its per-feature step (table rebuild through iterator adapters); build() of the operation (CSV loading, tilejson fields)',
@@ -105,7 +105,7 @@ PROPS = {
     ),
     'C19': dict(
         verus=['varint_pbf', 'pmtiles_dir', 'filters', 'converter', 'vector_tile_tables', 'pmtiles_reader', 'vector_tile_feature', 'convert_cli', 'versatiles_reader', 'tile_index', 'vector_tile_layer', 'block_index', 'pmtiles_dir_dec', 'mbtiles_pyramid', 'vector_tile_merge'],
-        kani=['pmtiles_codec', 'versatiles_codec', 'geo'],
+        kani=['pmtiles_codec', 'versatiles_codec', 'geo', 'zigzag'],
         not_decided=[
             'JSON / TileJSON / CSV / VPL text parsers (String, nom, core::fmt: outside both verifiers; Kani probes timed out)',
             'GeoValue decoding', 'MBTiles / tar / directory opening', 'stack depth of the recursive JSON parser',
